@@ -26,7 +26,6 @@ type parser struct {
 	src  []rune
 	pos  int
 	rule string
-	nact int
 }
 
 func (p *parser) fail(msg string) {
@@ -350,14 +349,6 @@ func (p *parser) labeled() *expr {
 
 func (p *parser) seq() *expr {
 	var kids []*expr
-	// pigeon numbers the action by the position of its expression in the rule; we number the
-	// actions of a rule 1, 2, .. in the order their expressions START (outer before inner)
-	ord := -1
-	start := p.pos
-	_ = start
-	mark := p.nact
-	p.nact++ // reserve an ordinal for a possible action of this sequence
-	ord = p.nact
 	for {
 		p.ws()
 		c := p.peek()
@@ -371,17 +362,16 @@ func (p *parser) seq() *expr {
 	}
 	var e *expr
 	if len(kids) == 1 {
-		e = kids[0]
+		e = kids[0] // pigeon does not wrap a single expression into a sequence
 	} else {
 		e = &expr{kind: "seq", kids: kids}
 	}
 	p.ws()
 	if p.peek() == '{' {
 		p.codeBlock()
-		return &expr{kind: "act", s: fmt.Sprintf("%s#%d", p.rule, ord), kids: []*expr{e}}
+		// the tag is assigned afterwards (compact): rule name + ordinal of the action in pre-order
+		return &expr{kind: "act", kids: []*expr{e}}
 	}
-	// no action: give the reserved ordinal back by renumbering later (ordinals are compacted in finish)
-	_ = mark
 	return e
 }
 
@@ -547,7 +537,7 @@ func main() {
 			p.fail("duplicate rule " + name)
 		}
 		seen[name] = true
-		p.rule, p.nact = name, 0
+		p.rule = name
 		e := p.choice()
 		n := 0
 		compact(e, name, &n)
